@@ -59,6 +59,7 @@ type Cfg struct {
 	Filter int // controller level filter (hx.MkFilter index)
 	// SlowOn: the controller's filter takes one (virtual) second to decide about objects of this name with a version
 	// above 1 (a slow user predicate): the controller is legitimately busy while watch frames keep arriving
+	Defaults      bool   // the controller is made by kcache.NewController (builder defaults: filter Null, period 1 min; Filter and Period must say so)
 	SlowLogPrefix string // a library stage made slow: the Debugf line starting with this takes 2 ms (hx.SlowLog)
 	SlowOn        string
 	SlowFor       time.Duration // how long the slow filter takes for that object (0 = 1s)
@@ -228,9 +229,16 @@ func (in *Inst) Run() {
 	if c.SlowLogPrefix != "" {
 		log = hx.SlowLog{Prefix: c.SlowLogPrefix, D: 2 * time.Millisecond}
 	}
-	b := kcache.NewBuilder().Context(ctx).Log(log).Filter(in.controllerFilter()).Client(in.Srv)
-	b.Lister().RefreshPeriod(c.Period)
-	ctrl, err := b.Create()
+	var ctrl kcache.Controller
+	var err error
+	if c.Defaults {
+		// the convenience constructor: no filter, the default refresh period (one minute)
+		ctrl, err = kcache.NewController(ctx, log, in.Srv)
+	} else {
+		b := kcache.NewBuilder().Context(ctx).Log(log).Filter(in.controllerFilter()).Client(in.Srv)
+		b.Lister().RefreshPeriod(c.Period)
+		ctrl, err = b.Create()
+	}
 	in.O.CreateErr = err
 	if err != nil {
 		return
